@@ -232,6 +232,8 @@ groups.register_probes("C07", PROBES_C07)
 
 # regression probes: what code run by a built-in in a VM of its own leaves uncaught reaches the calling script's handlers
 PROBES_C07 += [
+    ("location-not-taken-from-an-unrelated-function", "var r;\nfunction g(){ throw new Error('a'); }\n\n\ntry { throw new Error('b') } catch (e) { r = [e.lineNumber, e.columnNumber].join() } r", "5,7"),
+    ("location-inside-nested-functions", "function outer(){ function inner(){\n throw new Error('deep') } inner() }\nvar r; try { outer() } catch (e) { r = [e.lineNumber, e.columnNumber].join() } r", "2,2"),
     ("eval-syntax-error-catchable", "var r; try { eval('(') } catch (e) { r = 'caught ' + e.name } r", "caught SyntaxError"),
     ("eval-throw-keeps-value", "var o = {k: 1}; var r; try { eval('throw o') } catch (e) { r = (e === o) } r", True),
     ("eval-runtime-error-kind", "var r; try { eval('null.x') } catch (e) { r = e.name + ':' + (e instanceof TypeError) } r", "TypeError:true"),
